@@ -148,6 +148,22 @@ def gen_stream(rng, columns=None, players=None, n=None, keysounds=None, types=NO
             for i, x in enumerate((a, b)):
                 bb = 4 * (last + 1 + i * rng.randint(1, 2)) + x
                 out.append([p, bb.numerator, bb.denominator, c, t, None])
+    if len(pl) >= 2 and rng.random() < 0.2:
+        # routine twins: two players carry a measure of 48+ rows with exactly the same cells (same or different measure
+        # number), so the measure's text occurs twice in the note data under different player indices
+        a, b = pl[0], pl[-1]
+        d = rng.choice([12, 16, 24, 48, 12, 48])
+        twin = []
+        for j in sorted(rng.sample(range(4 * d), rng.randint(1, 3))):
+            for c in sorted(rng.sample(range(columns), rng.randint(1, min(columns, 2)))):
+                twin.append((Fraction(j, d), c, rng.choice(types), rng.choice([None, rng.randint(0, 99)]) if keysounds else None))
+        if any(x[0].denominator * 4 >= 48 or d >= 12 for x in twin):
+            base = max([n[1] // n[2] // 4 for n in out] + [-1]) + 1
+            for p_, shift in ((a, 0), (b, rng.choice([0, 0, 1, 2]))):
+                for beat, c, t, ks in twin:
+                    bb = 4 * (base + shift) + beat
+                    out.append([p_, bb.numerator, bb.denominator, c, t, ks])
+            out.sort(key=lambda n: (n[0], Fraction(n[1], n[2]), n[3]))
     return columns, out
 
 
